@@ -595,6 +595,13 @@ func (h *verifCacheSqlH) do(op verifCacheOp, api int) {
 
 func verifCacheSqlSetup(t *testing.T) *verifCacheSqlH {
 	verifCacheEmitter = verifOpen(t)
+	if !cache.VerifCacheWB {
+		// the cleaner of core/stores/cache cannot be driven on this tree (its internals do not match the white-box
+		// part of the world helper): without it no sound history can be recorded, the driver does not run
+		verifCacheEmitter.Emit(verifEv{"e": "info", "skipped": "C06 drivers need to drive the cleaner wheel of core/stores/cache"})
+		verifCacheEmitter.Close()
+		t.Skip("white-box part of the C06 world helper unavailable")
+	}
 	h := &verifCacheSqlH{rnd: verifRand(607)}
 	t.Cleanup(func() {
 		if h.w != nil {
